@@ -116,7 +116,7 @@ class RealRig(Rig):
                   timeout_socket=10, timeout_transport=case.get("timeout_transport", 20), timeout_ops=case.get("timeout_ops", 8),
                   auth_bypass=case.get("bypass", self.kind != "system"))
         if self.kind in ("telnet", "asynctelnet"):
-            kw["auth_bypass"] = True
+            kw["auth_bypass"] = case.get("login") != "refuse"
         sink = case.get("sink", "none")
         if sink == "path":
             self.log_path = os.path.join(tmpdir, "channel.log")
@@ -149,7 +149,7 @@ class RealRig(Rig):
     # ---- faults: played by the device process, armed per operation through the control file
     def arm(self, fault):
         self.srv.gen = getattr(self.srv, "gen", 0) + 1
-        c = dict(gen=self.srv.gen, neg=self.case.get("neg", 0), partial=self.case.get("partial", False))
+        c = dict(gen=self.srv.gen, neg=self.case.get("neg", 0), partial=self.case.get("partial", False), login=self.case.get("login"))
         if fault:
             if fault[0] == "die":
                 c["die_after"] = fault[1]
@@ -196,7 +196,7 @@ class RealRig(Rig):
         return t.session is not None, t.stdin is not None
 
     def note_step_exception(self, exc):
-        if exc is not None and type(exc).__name__ != "ScrapliTimeout":
+        if exc is not None and type(exc).__name__ not in ("ScrapliTimeout", "ScrapliAuthenticationFailed"):
             self.dead_seen = True
 
     def usable(self):
@@ -280,6 +280,9 @@ def derive_events_real(seg, kind):
         elif x[0] == "stallfire" and cur is not None:
             evs[cur][0] = "s"       # the timeout decorator closed the transport during this step (whatever class finally surfaced)
             cur = None
+        elif x[0] == "actend" and cur is not None and x[2] == "ScrapliAuthenticationFailed":
+            evs[cur][0] = "a"       # the device refused the login during this step; the session is still there
+            cur = None
         elif x[0] == "actend" and cur is not None:
             if x[2] == "ScrapliTimeout":
                 evs[cur][0] = "s"
@@ -327,7 +330,8 @@ def quick_cases():
     is observed by a read), then close() / with-exit must have reaped it -- no process table entry, no pty descriptor"""
     mk = lambda plat, sink, bypass, sh: dict(stack="sync", platform=plat, kind="system", sink=sink, on_open="default", on_close="default",
                                              timeout_ops=15, bypass=bypass, ops=H(sh))
-    return [mk("generic", "path", False, "O X!d1 C O X C"), mk("cisco_iosxe", "true", True, "W.x!d1 W.x"),
+    return [{**mk("cisco_iosxe", "path", False, "W.x W"), "login": "refuse"},     # ssh never lets us in: open() fails with the child + pty up
+            mk("generic", "path", False, "O X!d1 C O X C"), mk("cisco_iosxe", "true", True, "W.x!d1 W.x"),
             mk("generic", "none", True, "O X!h1 C"), mk("arista_eos", "bytesio", False, "O X C C")]
 
 
@@ -358,6 +362,12 @@ def real_cases():
         cases.append(dict(stack="sync", platform=plat, kind="system", sink=sinks[i % 4], on_open="default", on_close="default", timeout_ops=8,
                           bypass=(i % 2 == 0), ops=H(sh)))
         i += 1
+    # the device refuses the in-channel login: open() raises ScrapliAuthenticationFailed with the transport up
+    for kind, plat, sh in (("system", "generic", "W.x W"), ("system", "arista_eos", "O C W.x"), ("telnet", "generic", "W.x O C"),
+                           ("telnet", "cisco_iosxe", "W W.x"), ("asynctelnet", "generic", "W.x O C"), ("asynctelnet", "arista_eos", "W W.x")):
+        cases.append(dict(stack="sync" if kind in SYNC_KINDS else "async", platform=plat, kind=kind, sink=sinks[i % 4], on_open="default",
+                          on_close="default", timeout_ops=8, bypass=False, login="refuse", neg=3 if kind != "system" else 0, ops=H(sh)))
+        i += 1
     # failure during open inside a with-block: wrong password (ssh transports), then the connection is used normally
     for kind in ("paramiko", "asyncssh"):
         stack = "sync" if kind in SYNC_KINDS else "async"
@@ -373,7 +383,7 @@ def model_line_real(mod, case, results):
         head = spec["op"] + ("." + spec["body"] if spec["op"] == "W" and spec.get("body") else "")
         hist.append(head + "/" + (",".join(e[0] for e in evs) if evs else "-"))
     sink = {"true": "path"}.get(case.get("sink", "none"), case.get("sink", "none"))
-    bypass = case.get("bypass", case["kind"] != "system") or case["kind"] in ("telnet", "asynctelnet")
+    bypass = case.get("bypass", case["kind"] != "system") or (case["kind"] in ("telnet", "asynctelnet") and case.get("login") != "refuse")
     return (f"run {case['stack']} {case['kind']} {case['kind']} {1 if bypass else 0} {sink} "
             f"{mod.hook_word(case, 'on_open')} {mod.hook_word(case, 'on_close')} src {';'.join(hist)}")
 
